@@ -312,7 +312,7 @@ func (matrix *DenseIntMatrix) ConstSlice(rfrom, rto, cfrom, cto int) ConstMatrix
 }
 func (matrix *DenseIntMatrix) ConstRow(i int) ConstVector {
   var v []int
-  if matrix.transposed {
+  if matrix.transposed || matrix.cols == 0 {
     v = make([]int, matrix.cols)
     for j := 0; j < matrix.cols; j++ {
       v[j] = matrix.values[matrix.index(i, j)]
@@ -325,7 +325,7 @@ func (matrix *DenseIntMatrix) ConstRow(i int) ConstVector {
 }
 func (matrix *DenseIntMatrix) ConstCol(j int) ConstVector {
   var v []int
-  if matrix.transposed {
+  if matrix.transposed && matrix.rows > 0 {
     j = matrix.index(0, j)
     v = matrix.values[j:j + matrix.rows]
   } else {
